@@ -65,6 +65,7 @@ type BoundContract struct {
 	Terminates  bool
 	Recovers    bool
 	MayPanic    bool
+	NoPanic     map[string]bool // callees whose panics are assumed away in this unit ("nopanic F G")
 	Partial     bool // a violated precondition makes the function panic (runtime check), it is not undefined behaviour
 	Trusted     bool
 	Variant     string
@@ -412,6 +413,11 @@ func (fr *frame) findLocalAt(name string, t types.Type, ctx *ssa.BasicBlock) *ss
 		}
 	}
 	if ctx != nil && len(cands) > 1 {
+		// lexical scoping first: among same-named variables, the one whose declaring scope contains the program point
+		// (innermost such scope). go/ssa keeps no scopes, go/types does.
+		if best := fr.scopedLocal(cands, ctx); best != nil {
+			return best
+		}
 		var best *ssa.Alloc
 		for _, a := range cands {
 			if !a.Block().Dominates(ctx) {
@@ -426,6 +432,39 @@ func (fr *frame) findLocalAt(name string, t types.Type, ctx *ssa.BasicBlock) *ss
 		}
 	}
 	return found
+}
+
+// scopedLocal picks, among same-named allocs, the variable visible at the first source position of block ctx.
+func (fr *frame) scopedLocal(cands []*ssa.Alloc, ctx *ssa.BasicBlock) *ssa.Alloc {
+	if fr.fn.Pkg == nil || fr.fn.Pkg.Pkg == nil {
+		return nil
+	}
+	pos := token.NoPos
+	for _, in := range ctx.Instrs {
+		if p := in.Pos(); p.IsValid() {
+			pos = p
+			break
+		}
+	}
+	if !pos.IsValid() {
+		return nil
+	}
+	root := fr.fn.Pkg.Pkg.Scope()
+	var best *ssa.Alloc
+	var bestScope *types.Scope
+	for _, a := range cands {
+		if !a.Pos().IsValid() || !a.Block().Dominates(ctx) {
+			continue
+		}
+		sc := root.Innermost(a.Pos())
+		if sc == nil || !sc.Contains(pos) || a.Pos() > pos {
+			continue
+		}
+		if bestScope == nil || (bestScope.Contains(sc.Pos()) && bestScope != sc) || (bestScope == sc && a.Pos() > best.Pos()) {
+			best, bestScope = a, sc
+		}
+	}
+	return best
 }
 
 func (env *specEnv) binary(x *ast.BinaryExpr) Val {
